@@ -167,6 +167,8 @@ def rate_limiter_sends_one_at_a_time_and_always_marks_done(q, t):
     it = since_last(ghost("T"), "get")
     assert t is None
     assert it[0] == ("done", "outgoing") and all(x == "cancel_limiter" for x in it[1:]) and len(it) <= 2
+    # no cancelled timer is left behind: a restarted queue would await it and end with CancelledError
+    assert q._rate_limiter is None
 
 
 class RecCemiHandler:
@@ -210,3 +212,34 @@ def internal_telegrams_never_reach_the_interface(q, t):
 ASSUMPTIONS = [
     "asyncio is trusted behind the contract stubs: a cancelled task/future does not continue, asyncio.timeout cancels what it guards, locks are mutually exclusive, queues are FIFO, tasks switch only at awaits; interleavings inside one await are represented by 'the awaited object completes with any admissible value, times out, or the connection closes'",
 ]
+
+
+
+class ConsumerTask:
+    async def __pyvc_await__(self):
+        ghost("T").append("await_consumer")
+
+    def __await__(self):
+        return self.__pyvc_await__().__await__()
+
+
+TQ3 = Obj(
+    TelegramQueue,
+    xknx=Obj(World, telegrams=Const(InQueue("telegrams"))),
+    telegram_received_cbs=Const([]),
+    outgoing_queue=Const(InQueue("outgoing")),
+    _rate_limiter=Choice(None, Obj(Limiter, delay=Float(lo=0.0, hi=10.0), awaited=False)),
+    _consumer_task=Choice(None, Obj(ConsumerTask)),
+)
+
+
+@lemma("C33", params=dict(q=TQ3), float_mode="real")
+def stop_only_queues_the_stop_marker_and_waits(q):
+    """stop(): puts the stop marker at the END of the telegram queue and waits for the consumer - everything
+    queued before still goes out (loops above). It must not touch the rate limiter: the sender loop may be
+    awaiting it, and awaiting a cancelled timer would end that loop with telegrams still queued."""
+    run(q.stop())
+    tr = ghost("T")
+    assert tr[0] == ("put", "telegrams", None)
+    assert "cancel_limiter" not in tr
+    assert tr[1:] == (["await_consumer"] if q._consumer_task is not None else [])
